@@ -14,7 +14,7 @@ from vcheck import core
 from vcheck.val import Exc, cbool, from_jsonable, jsonable, zlit, zstr
 
 PROP = "C04"
-COQ_TARGETS = ["theories/Model/AnnotRun.vo"]
+COQ_TARGETS = ["theories/Model/AnnotRun.vo", "theories/Model/AnnotAlnRun.vo"]
 DC = str.maketrans("ACGT", "TGCA")
 BASE = "AGCTTACGGATC"
 
@@ -75,7 +75,7 @@ FULL = [[None, None, True], [None, None, False]]
 
 def exhaustive_block(tier):
     cases = []
-    Ls = [5] if tier == "quick" else [4, 6]
+    Ls = [4] if tier == "quick" else [5, 6]
     for L in Ls:
         parent = BASE[:L]
         feats = [[sp, m] for sp in span_sets(L) for m in (False, True)]
@@ -91,7 +91,10 @@ def exhaustive_block(tier):
     # windows: every (start, stop) on a few views of a length-5 parent
     L = 5
     parent = BASE[3:3 + L]
-    feats = [[sp, m] for sp in span_sets(L, 2) for m in (False, True)]
+    wsets = span_sets(L, 2)
+    if tier == "quick":
+        wsets = wsets[:15] + wsets[15::3]
+    feats = [[sp, m] for sp in wsets for m in (False, True)]
     for impl in ("old", "new"):
         for ops in ([], [["rc"]], [["s", 1, 4, None]], [["rc"], ["s", 1, 5, None]]):
             idx, _ = view_positions(L, ops)
@@ -99,7 +102,7 @@ def exhaustive_block(tier):
             qs = [[a, b, p] for a in [None] + list(range(-n - 1, n + 2)) for b in [None] + list(range(-n - 1, n + 2))
                   for p in (True, False)]
             if tier == "quick":
-                qs = qs[::3]
+                qs = qs[::5]
             for i in range(0, len(qs), 24):
                 cases.append(mk_case(impl, parent, 0, feats, ops, qs[i:i + 24], block="windows"))
     # add_feature through every single-slice / rc view
@@ -112,7 +115,7 @@ def exhaustive_block(tier):
                 n = len(idx)
                 for sp in span_sets(n, 2):
                     for m in (False, True):
-                        if tier == "quick" and (len(sp) > 1 and m):
+                        if tier == "quick" and ((len(sp) > 1 and (m or off)) or (off and impl == "new" and m)):
                             continue
                         cases.append(mk_case(impl, parent, off, [], ops, [[None, None, True]], add=[sp, m], block="add"))
     return cases
@@ -503,6 +506,32 @@ def aln_case(rng):
     return dict(kind="aln", impl="old", rows=rows, feats=feats, ops=ops, block="alignment")
 
 
+def aln_lattice(tier):
+    """every gap layout of row s1 over ncol columns x every 1-2-span feature on either strand of s1 x
+    no op / every slice / rc / slice then rc / rc then slice; s2 has a fixed layout with leading and inner gaps"""
+    ncol = 3 if tier == "quick" else 5
+    cases = []
+    res = "ACGTA"
+    other = "-TG-C"[:ncol] if ncol > 3 else "-TG"
+    for bits in range(1, 2 ** ncol):
+        row, k = "", 0
+        for j in range(ncol):
+            if bits >> j & 1:
+                row += res[k]
+                k += 1
+            else:
+                row += "-"
+        L = k
+        feats = [["s1", sp, m] for sp in span_sets(L, 2) for m in (False, True)]
+        sl = [["s", a, b] for a, b in all_slices(ncol)]
+        opsets = [[], [["rc"]]] + [[x] for x in sl] + [[x, ["rc"]] for x in sl]
+        if tier != "quick":
+            opsets += [[["rc"], x] for x in sl]
+        for ops in opsets:
+            cases.append(dict(kind="aln", impl="old", rows={"s1": row, "s2": other}, feats=feats, ops=ops, block="aln-lattice"))
+    return cases
+
+
 def aln_oracle(c):
     """per feature: the alignment columns holding the feature's residues, restricted to the columns
     the alignment view displays, read on the feature's strand; projected onto another row = that
@@ -534,10 +563,59 @@ def aln_oracle(c):
     return out, rev
 
 
-def evaluate_aln(rep, cases, stats):
+def coq_alcase(c, fx=PINNED):
+    names = list(c["rows"])
+    fxs = "(" + ",".join(cbool(b) for b in fx) + ")"
+    rows = "[" + ";".join(zstr(c["rows"][nm]) for nm in names) + "]"
+    feats = "[" + ";".join(f"({names.index(sid)},{pairs(sp)},{cbool(m)})" for sid, sp, m in c["feats"]) + "]"
+    ops = "[" + ";".join("ARc" if o[0] == "rc" else f"ASlice {zlit(o[1])} {zlit(o[2])}" for o in c["ops"]) + "]"
+    return f"({fxs}, {rows}, {feats}, {ops})"
+
+
+def run_model_aln(cases, fx=PINNED):
+    return core.coq_eval(PROP, ["Model.View", "Model.Annot", "Model.IndelMap", "Model.FeatureMap", "Model.Aligned",
+                                "Model.AnnotAln", "Model.AnnotAlnRun"], "run_alcase",
+                         [coq_alcase(c, fx) for c in cases], "alcase", shard=150, tag="a" + "".join("ft"[b] for b in fx))
+
+
+def _vstr(x):
+    if isinstance(x, list):
+        return "".join(chr(ch) for ch in x)
+    return x
+
+
+def norm_aln_model(m):
+    if m is None or isinstance(m, Exc):
+        return m
+    minus, coords, sl, pj = m
+    return [minus, coords, [_vstr(x) for x in sl], [_vstr(x) for x in pj]]
+
+
+def norm_aln_impl(g, c, f):
+    if g is None:
+        return None
+    if isinstance(g, dict) and "exc" in g:
+        return Exc(g["exc"])
+    names = list(c["rows"])
+    def cell(x):
+        return Exc(x["exc"]) if isinstance(x, dict) else x
+    sl = g["slice"]
+    sl = [Exc(sl["exc"])] * len(names) if (isinstance(sl, dict) and "exc" in sl) else [cell(sl[nm]) for nm in names]
+    pj = [None if nm == f[0] else cell(g["proj"][nm]) for nm in names]
+    return [g["minus"], g["coords"], sl, pj]
+
+
+def evaluate_aln(rep, cases, stats, fx=PINNED, dis=None):
     impl = core.run_impl_sharded("c04_impl.py", cases)
-    for c, ir in zip(cases, impl):
+    try:
+        model = run_model_aln(cases, fx)
+    except core.CheckError as e:
+        rep.notes.append(f"alignment model not runnable: {str(e)[:300]}")
+        model = None
+    pend = []
+    for n, (c, ir) in enumerate(zip(cases, impl)):
         exp, rev = aln_oracle(c)
+        mr = from_jsonable(jsonable(model[n])) if model is not None else None
         if isinstance(ir, dict):
             stats["violations"] += 1
             rep.violation(f"aln:case-raised:E{ir.get('exc')}", dict(case=c, observed_impl=ir, broken="alignment case raised"))
@@ -566,11 +644,28 @@ def evaluate_aln(rep, cases, stats):
                             key = f"aln:projected:{'rc' if rev else 'fwd'}:{'-' if f[2] else '+'}"
                     if key is None:
                         stats["nontrivial"].add(json.dumps([c["rows"], c["ops"], f]))
+            mm = norm_aln_model(mr[k]) if isinstance(mr, list) and k < len(mr) else mr
+            gi = norm_aln_impl(g, c, f)
             if key:
                 stats["violations"] += 1
-                rep.violation(key, dict(case=small, expected_by_spec=e, observed_impl=g,
+                rep.violation(key, dict(case=small, expected_by_spec=e, observed_impl=g, model_output=jsonable(mm),
                                         broken="alignment-level feature does not denote the columns holding the "
-                                               "feature's residues (Model: none; position-set oracle)"))
+                                               "feature's residues (position-set oracle)"))
+            elif model is not None and gi != mm:
+                # a feature that retains no column has no defined projection: the implementation raises from numpy
+                degenerate = (g is not None and not e["retained"])
+                if not (degenerate and isinstance(gi, list) and isinstance(mm, list) and gi[:3] == mm[:3]):
+                    pend.append((n, k, small, gi, mm))
+    # items that differ from the primary variant may follow the other one
+    if pend and model is not None:
+        alt = PINNED if fx != PINNED else ALL_FIXED
+        ns = sorted({n for n, *_ in pend})
+        alt_model = dict(zip(ns, run_model_aln([cases[n] for n in ns], alt)))
+        for n, k, small, gi, mm in pend:
+            am = from_jsonable(jsonable(alt_model[n]))
+            am = norm_aln_model(am[k]) if isinstance(am, list) else am
+            if gi != am and dis is not None:
+                dis.append(dict(key="alignment", case=small, observed_impl=jsonable(gi), model_output=jsonable(mm)))
 
 
 # ------------------------------------------------------------------ the check
@@ -579,8 +674,8 @@ def build_cases(tier, seed):
     rng = random.Random(seed * 104729 + 4)
     cases = list(CORPUS)
     cases += exhaustive_block(tier)
-    nrand = 400 if tier == "quick" else 6000
-    nstr = 100 if tier == "quick" else 1500
+    nrand = 250 if tier == "quick" else 6000
+    nstr = 80 if tier == "quick" else 1500
     for _ in range(nrand):
         c = random_case(rng)
         if c:
@@ -632,7 +727,9 @@ def detect_fixes(impl_corpus):
     return (fx_bound, fx_mapped, fx_add)
 
 
-def evaluate(rep, cases, pr_broken=False):
+def evaluate(rep, cases, pr_broken=False, side_job=None):
+    """side_job(primary) is started as soon as the model variant is known and runs concurrently
+    (the alignment block); its future is returned in stats["side"]"""
     stats = dict(evaluations=0, violations=0, nontrivial=set())
     pending = []
     # the corpus cases run first: they tell which model variant to evaluate, so that the
@@ -643,7 +740,9 @@ def evaluate(rep, cases, pr_broken=False):
     stats["model_variant"] = dict(zip(("fx_bound", "fx_mapped", "fx_add"), primary))
     import concurrent.futures as cf
 
-    with cf.ThreadPoolExecutor(max_workers=2) as ex:
+    with cf.ThreadPoolExecutor(max_workers=3) as ex:
+        if side_job is not None:
+            stats["side"] = ex.submit(side_job, primary)
         f_impl = ex.submit(run_impl_balanced, cases[ncorp:])
         f_model = ex.submit(run_model, cases, primary)
         impl = impl_corpus + f_impl.result()
@@ -691,17 +790,26 @@ def run(tier: str, seed: int) -> int:
         "annotation db: sqlite evaluates the WHERE text; its two coordinate clauses are re-stated in Model/Annot.v "
         "(db_partial/db_within; C17 ties them to the source text) and the per-name queries go through the real db",
         "numpy array arithmetic inside get_features/make_feature is modelled on Z",
-        "alignment-level projection is compared with the position-set oracle only (not modelled in Coq)",
+        "alignment side imports the C08 IndelMap/FeatureMap and C03 Aligned models and their theorems (composition_spec, "
+        "fm_inverse_spec, spans_tiled, row_slice_python, row_rc_spec); both model and oracle are compared with the implementation",
     ])
     rep.assumptions += [
         "theorems: well-formed view with |step| = 1 (every history of unit-step slices, rc and copy gives one), annotation "
         "offset >= 0, feature spans sorted, disjoint, non-empty at absolute coordinates >= 0, query window 0 <= s < e <= len(view); "
         "the db side (sqlite WHERE) enters through the two coordinate clauses proved equivalent to interval overlap / containment"]
     cases = build_cases(tier, seed)
-    stats, dis, impl = evaluate(rep, cases, bool(pr["problems"]))
     rng_a = random.Random(seed * 7907 + 41)
-    aln_cases = [aln_case(rng_a) for _ in range(300 if tier == "quick" else 6000)]
-    evaluate_aln(rep, aln_cases, stats)
+    aln_cases = aln_lattice(tier) + [aln_case(rng_a) for _ in range(250 if tier == "quick" else 6000)]
+    aln_stats = dict(evaluations=0, violations=0, nontrivial=set())
+    aln_dis = []
+    stats, dis, impl = evaluate(rep, cases, bool(pr["problems"]),
+                                side_job=lambda primary: evaluate_aln(rep, aln_cases, aln_stats, primary, aln_dis))
+    if "side" in stats:
+        stats.pop("side").result()
+    stats["evaluations"] += aln_stats["evaluations"]
+    stats["violations"] += aln_stats["violations"]
+    stats["nontrivial"] |= aln_stats["nontrivial"]
+    dis += aln_dis
     dist = {"alignment": len(aln_cases)}
     for c in cases:
         dist[c["block"]] = dist.get(c["block"], 0) + 1
@@ -713,8 +821,11 @@ def run(tier: str, seed: int) -> int:
              "is returned, its slice is non-empty and equals the position-set oracle",
         samples=[dict(case=sample)],
         input_distribution=dict(cases=len(cases), blocks=dist),
-        partial=["alignment-level features and get_projected_feature (old-style Alignment; this tree has no new-style Alignment): "
-                 "compared with the position-set oracle only, no Coq model",
+        partial=["alignment level (old-style Alignment; this tree has no new-style Alignment): get_features(seqid), the "
+                 "alignment-level map, get_projected_feature are modelled (Model/AnnotAln.v on the C08/C03 models) and proved at the "
+                 "level of cells (which column / position every cell reads) and of the row string read at those columns; how the "
+                 "cells are grouped into spans and the per-row strings of Feature.get_slice() on the alignment (C03 "
+                 "row_getitem_locs) are tied by correspondence + oracle only; allow_partial=False on alignments not exercised",
                  "strided views (|step| > 1) and negative / swapped / out-of-range query windows: model-vs-implementation "
                  "correspondence, slice oracle only (the theorems assume |step| = 1 and a proper window)",
                  "parent coordinates of feature.get_slice(): proved for the repaired variant when the one-span feature lies "
